@@ -39,11 +39,13 @@ def TWO32 : Nat := 4294967296
 
 /-! ### protobuf varints -/
 
-/-- `encodeVarintMetadata` -/
-def encVarint (v : Nat) : Bytes :=
-  if v < 128 then [UInt8.ofNat v] else UInt8.ofNat (v % 128 + 128) :: encVarint (v / 128)
-termination_by v
-decreasing_by omega
+/-- `encodeVarintMetadata` with `f` continuation bytes still allowed -/
+def encVarintF : Nat → Nat → Bytes
+  | 0, v => [UInt8.ofNat v]
+  | f + 1, v => if v < 128 then [UInt8.ofNat v] else UInt8.ofNat (v % 128 + 128) :: encVarintF f (v / 128)
+
+/-- `encodeVarintMetadata(uint64)`: at most ten bytes (every v < 2^64 < 128^10 ends before the fuel does) -/
+def encVarint (v : Nat) : Bytes := encVarintF 9 v
 
 /-- the generated read loop `for shift := uint(0); ; shift += 7 { if shift >= 64 {overflow}; if iNdEx >= l {EOF}; … }` with `n`
     bytes still allowed (10 at the start: shifts 0,7,…,63): the UNREDUCED value Σ (bᵢ & 0x7f)·128ⁱ and the rest -/
@@ -186,6 +188,8 @@ def prepare (s : St) (sel : List Bytes) : List Bytes :=
 
 inductive Verdict | accept | reject
 deriving DecidableEq, Repr
+
+deriving instance DecidableEq for Res
 
 /-- what `ProcessProposal` does with one entry after the splitter: `false` = REJECT -/
 def entryOk (s : St) (e : Bytes) : Bool :=
